@@ -85,7 +85,7 @@ def bfs_hints(A: TA, B: TA):
                     pi[t] = cb[1]; rank[t] = rank[p] + 1; pred[t] = (p, x); path[t] = path[p] + [x]
                     q.append(t)
                 elif pi[t] != cb[1]:
-                    return pi, rank, pred, (path[p] + [x], None, ('state', t, 'already mapped to', pi[t]), ('state', cb[1]))
+                    return pi, rank, pred, (path[p] + [x], None, ('state', t, 'already mapped to', pi[t], path[t]), ('state', cb[1]))
     return pi, rank, pred, None
 
 
@@ -200,7 +200,23 @@ def decide_iso(A: TA, B: TA, solver='z3', check_counts=True) -> IsoOutcome:
                 out.reason = 'certificate rejected by solver (hint construction bug?): %s' % res
         else:
             # ---------- refutation route: bounded symbolic path search
-            if mismatch is not None:
+            if mismatch is not None and mismatch[2][0] == 'state':
+                # one artefact state reached by two paths that lead to two different reference states
+                p1, p2 = mismatch[2][4], mismatch[0]
+                fork = _bounded_fork(S, A, B, ws, wx, wp, len(p1), len(p2), q)
+                if fork is None:
+                    out.iso = None
+                    out.reason = 'native BFS found a fork the solver does not confirm'
+                else:
+                    okf, why = replay_fork(A, B, fork['path1'], fork['path2'])
+                    if okf:
+                        out.iso = False
+                        out.counterexample = fork
+                        out.reason = why
+                    else:
+                        out.iso = None
+                        out.reason = 'solver fork counterexample does not replay natively: ' + why
+            elif mismatch is not None:
                 L = len(mismatch[0])
                 cex = _bounded_difference(S, A, B, ws, wx, wp, L, q)
                 if cex is None:
@@ -263,6 +279,50 @@ def _bounded_difference(S, A, B, ws, wx, wp, L, q):
         return None
     return {'kind': 'difference', 'path': [m['x%d' % i] for i in range(L)], 'sym': m['x%d' % L],
             'stateA': m['a%d' % L], 'stateB': m['b%d' % L]}
+
+
+def _bounded_fork(S, A, B, ws, wx, wp, L1, L2, q):
+    """exists paths u (|u| = L1) and v (|v| = L2), followable in both automata, that end in the SAME
+    artefact state but in DIFFERENT reference states."""
+    asserts = []
+    names = []
+    for tag, L in (('u', L1), ('v', L2)):
+        for i in range(L + 1):
+            S.define('(declare-const f%sa%d (_ BitVec %d))' % (tag, i, ws))
+            S.define('(declare-const f%sb%d (_ BitVec %d))' % (tag, i, ws))
+            S.define('(declare-const f%sx%d (_ BitVec %d))' % (tag, i, wx))
+        asserts += ['(= f%sa0 %s)' % (tag, bv(A.start, ws)), '(= f%sb0 %s)' % (tag, bv(B.start, ws))]
+        for i in range(L):
+            asserts.append('(bvult f%sx%d %s)' % (tag, i, bv(A.nsym, wx)))
+            asserts.append('(= (tagA f%sa%d f%sx%d) %s)' % (tag, i, tag, i, bv(TAG_GO, 3)))
+            asserts.append('(= (tagB f%sb%d f%sx%d) %s)' % (tag, i, tag, i, bv(TAG_GO, 3)))
+            asserts.append('(= f%sa%d ((_ extract %d 0) (payA f%sa%d f%sx%d)))' % (tag, i + 1, ws - 1, tag, i, tag, i))
+            asserts.append('(= f%sb%d ((_ extract %d 0) (payB f%sb%d f%sx%d)))' % (tag, i + 1, ws - 1, tag, i, tag, i))
+            names.append('f%sx%d' % (tag, i))
+    asserts.append('(= fua%d fva%d)' % (L1, L2))
+    asserts.append('(distinct fub%d fvb%d)' % (L1, L2))
+    r, m = q('Q_fork_%d_%d' % (L1, L2), asserts, names)
+    if r != 'sat':
+        return None
+    return {'kind': 'fork', 'path1': [m['fux%d' % i] for i in range(L1)], 'path2': [m['fvx%d' % i] for i in range(L2)]}
+
+
+def replay_fork(A: TA, B: TA, p1, p2):
+    ends = []
+    for path in (p1, p2):
+        a, b = A.start, B.start
+        for x in path:
+            ca, cb = A.cells[a][x], B.cells[b][x]
+            if ca[0] != TAG_GO or cb[0] != TAG_GO:
+                return False, 'path not followable'
+            a, b = ca[1], cb[1]
+        ends.append((a, b))
+    n1 = ' '.join(A.symnames[x] for x in p1) or '<empty>'
+    n2 = ' '.join(A.symnames[x] for x in p2) or '<empty>'
+    if ends[0][0] == ends[1][0] and ends[0][1] != ends[1][1]:
+        return True, ('paths [%s] and [%s] end in the same artefact state %d but in two different reference LALR(1) states %d and %d '
+                      '(two LR(0) cores share one state)' % (n1, n2, ends[0][0], ends[0][1], ends[1][1]))
+    return False, 'ends %r' % (ends,)
 
 
 def _bounded_reach(S, A, ws, wx, wp, target, L, q):
